@@ -472,6 +472,12 @@ func variantFor(want int, token string) (api.VariantsRes, error) {
 		return up, nil
 	case want == 204:
 		return &api.VariantsNoContent{}, nil
+	case want >= 300 && want < 400:
+		v := &api.Variants3XX{StatusCode: want, Location: "/r/" + token}
+		if want%2 == 0 {
+			v.XHops.SetTo(len(token))
+		}
+		return v, nil
 	case want >= 400 && want < 500:
 		p := &api.ProblemStatusCode{StatusCode: want, Response: api.Problem{Title: "problem " + token}}
 		p.Response.Detail.SetTo("d-" + token)
@@ -500,6 +506,16 @@ func (handler) Secure(ctx context.Context, params api.SecureParams) (*api.Secure
 	return &api.SecureOK{Who: params.Who, Via: via}, nil
 }
 
+func (handler) Secure2(ctx context.Context, params api.Secure2Params) (*api.Secure2OK, error) {
+	yield(ctx)
+	via, _ := ctx.Value(viaKey{}).(string)
+	saw(ctx, canon(struct {
+		Params api.Secure2Params
+		Via    string
+	}{params, via}))
+	return &api.Secure2OK{Who: params.Who, Via: via}, nil
+}
+
 func (handler) NewError(ctx context.Context, err error) *api.ErrorStatusCode {
 	var esc *api.ErrorStatusCode
 	if errors.As(err, &esc) {
@@ -522,11 +538,14 @@ func secCheck(ctx context.Context, scheme, value string) (context.Context, error
 	if !strings.HasPrefix(value, "good-") {
 		return ctx, errors.New("bad credential")
 	}
+	// the order in which the server consults the schemes is not part of any property: keep the set sorted
 	prev, _ := ctx.Value(viaKey{}).(string)
+	parts := []string{scheme + "=" + value}
 	if prev != "" {
-		prev += "+"
+		parts = append(parts, strings.Split(prev, "+")...)
 	}
-	return context.WithValue(ctx, viaKey{}, prev+scheme+"="+value), nil
+	sort.Strings(parts)
+	return context.WithValue(ctx, viaKey{}, strings.Join(parts, "+")), nil
 }
 
 func (secHandler) HandleBasic(ctx context.Context, _ api.OperationName, t api.Basic) (context.Context, error) {
@@ -555,14 +574,14 @@ func credOf(ctx context.Context) (string, string) {
 
 func (secSource) Basic(ctx context.Context, _ api.OperationName) (api.Basic, error) {
 	c, tag := credOf(ctx)
-	if c == "basic+query" {
+	if c == "basic+query" || c == "h+basic" {
 		return api.Basic{Username: "good-u-" + tag, Password: "p-" + tag}, nil
 	}
 	return api.Basic{}, ogenerrors.ErrSkipClientSecurity
 }
 func (secSource) Bearer(ctx context.Context, _ api.OperationName) (api.Bearer, error) {
 	c, tag := credOf(ctx)
-	if c == "bearer" {
+	if c == "bearer" || c == "h+bearer" {
 		return api.Bearer{Token: "good-b-" + tag}, nil
 	}
 	return api.Bearer{}, ogenerrors.ErrSkipClientSecurity
@@ -570,7 +589,7 @@ func (secSource) Bearer(ctx context.Context, _ api.OperationName) (api.Bearer, e
 func (secSource) KeyHeader(ctx context.Context, _ api.OperationName) (api.KeyHeader, error) {
 	c, tag := credOf(ctx)
 	switch c {
-	case "header":
+	case "header", "h+basic", "h+bearer":
 		return api.KeyHeader{APIKey: "good-h-" + tag}, nil
 	case "wrong":
 		return api.KeyHeader{APIKey: "evil-h-" + tag}, nil
@@ -764,7 +783,7 @@ func doCall(ctx context.Context, c *api.Client, rec *CallRecord) {
 		}
 		finish(rec, nil, err)
 	case "variants":
-		wants := []int{200, 201, 204, 404, 418, 503, 0}
+		wants := []int{200, 201, 204, 302, 307, 404, 418, 503, 0}
 		want := wants[r.intn(len(wants))]
 		req := &api.VariantsReq{Want: want, Token: tag}
 		rec.ExpectServerSaw = canon(*req)
@@ -777,10 +796,7 @@ func doCall(ctx context.Context, c *api.Client, rec *CallRecord) {
 				v = &d
 			}
 			rec.ExpectClientGot = fmt.Sprintf("%T:", v) + canon(v)
-			rec.ExpectStatus = map[int]int{200: 200, 201: 201, 204: 204}[want]
-			if want >= 400 {
-				rec.ExpectStatus = want
-			}
+			rec.ExpectStatus = want
 		case want >= 500:
 			rec.ExpectStatus, rec.ExpectErrClass = want, fmt.Sprintf("status:%d", want)
 		default:
@@ -806,6 +822,24 @@ func doCall(ctx context.Context, c *api.Client, rec *CallRecord) {
 			rec.ExpectClientGot = canon(api.SecureOK{Who: params.Who, Via: via})
 		}
 		res, err := c.Secure(ctx, params)
+		finish(rec, res, err)
+	case "secure2":
+		params := api.Secure2Params{Who: "w2 " + tag}
+		via := map[string]string{
+			"h+basic":  "basic=good-u-" + tag + ":p-" + tag + "+keyHeader=good-h-" + tag,
+			"h+bearer": "bearer=good-b-" + tag + "+keyHeader=good-h-" + tag,
+		}[call.Cred]
+		if via == "" {
+			rec.ExpectStatus, rec.ExpectErrClass = 401, "error"
+		} else {
+			rec.ExpectStatus = 200
+			rec.ExpectServerSaw = canon(struct {
+				Params api.Secure2Params
+				Via    string
+			}{params, via})
+			rec.ExpectClientGot = canon(api.Secure2OK{Who: params.Who, Via: via})
+		}
+		res, err := c.Secure2(ctx, params)
 		finish(rec, res, err)
 	default:
 		rec.ClientErr, rec.ClientErrClass = "unknown op", "harness"
